@@ -145,6 +145,9 @@ impl BitVector {
 
         if value {
             self.data[word_idx] |= 1 << bit_idx;
+        } else {
+            // The last word may carry stale padding bits (e.g. after `filled` or `not`).
+            self.data[word_idx] &= !(1 << bit_idx);
         }
 
         self.len += 1;
